@@ -47,6 +47,18 @@ func c15Cache(c *vk.Ctx, stmt bool) {
 			}
 		}
 	}
+	// two readers on a populated cache (queries through the index with different conditions, the scan
+	// path, several filters): readers share the lock, so whatever they share besides must be read-only
+	readers := [][]int{{harness.OpFindKind0}, {harness.OpFindPLimit1}, {harness.OpFindMulti}, {harness.OpFindSince2}, {harness.OpFindKind0, harness.OpFindPLimit1}, {harness.OpFindAll, harness.OpFindKind0}}
+	full := []int{harness.OpAddV1, harness.OpAddR, harness.OpAddQ}
+	for i, ra := range readers {
+		for j, rb := range readers {
+			if j < i {
+				continue
+			}
+			jobs = append(jobs, mk(map[string]int{"cap": 3, "pre": harness.EncodeScript(full...), "s0": harness.EncodeScript(ra...), "s1": harness.EncodeScript(rb...)}))
+		}
+	}
 	// three tasks (statement-point mode: thorough tier only — they need a larger budget)
 	for i, sa := range a {
 		if stmt && !c.Thorough() {
@@ -71,7 +83,7 @@ func c15Cache(c *vk.Ctx, stmt bool) {
 	if stmt {
 		mode = "statement-point mode (every statement of event_cache.go and data_structure.go is a scheduling point touching one pseudo-object, so a changed lock scope becomes a real atomicity violation): all schedules up to the preemption bound"
 	}
-	c.P.Rule = "E1: 2-3 tasks x 1-2 operations (Add of related events: two versions of one address, an event and a deletion request for it, an evicting insertion; Find through the scan and the index path; Len) on ONE shared EventCache (capacity 1-2), starting from an empty and from a populated cache; " + mode + "; oracle: brute-force linearizability against the cache itself run sequentially (every total order consistent with the call/return stamps), plus per-result invariants; and two CacheHandler sessions on one cache"
+	c.P.Rule = "E1: 2-3 tasks x 1-2 operations (Add of related events: two versions of one address, an event and a deletion request for it, an evicting insertion; Find through the scan and the index path; Len) on ONE shared EventCache (capacity 1-2), starting from an empty and from a populated cache, and pairs of readers on a populated cache; the state left behind is queried once more at the end and is part of the history; " + mode + "; oracle: brute-force linearizability against the cache itself run sequentially (every total order consistent with the call/return stamps), plus per-result invariants; and two CacheHandler sessions on one cache"
 	res := runJobs(c, jobs)
 	for i, r := range res {
 		if i%50 == 0 {
